@@ -206,7 +206,7 @@ v("benign-local-for-lowerbound", B, (MPC, "        for i in range(max(1, self.ge
 v("benign-mccormick-rows-reordered", B, (SW, "        self.add_constraint(product_var <= ub * binary_var, name=name + \"_a\")\n        self.add_constraint(product_var >= lb * binary_var, name=name + \"_b\")\n",
                                            "        self.add_constraint(product_var >= lb * binary_var, name=name + \"_b\")\n        self.add_constraint(ub * binary_var >= product_var, name=name + \"_a\")\n", 1))
 v("benign-extra-logging", B, (MFD, "            utils.logger.info(f\"{__name__}: iteration with k = {i}\")\n", "            utils.logger.info(f\"{__name__}: iteration with k = {i}\")\n            utils.logger.debug(f\"{__name__}: still searching\")\n", 1))
-v("benign-value-local-in-validation", B, (SSG, "            if data[flow_attr] < 0:\n", "            value_here = data[flow_attr]\n            if value_here < 0:\n", 1))
+v("benign-value-local-in-validation", B, (SSG, "            if not (data[flow_attr] >= 0) or data[flow_attr] == float(\"inf\"):\n", "            value_here = data[flow_attr]\n            if not (value_here >= 0) or value_here == float(\"inf\"):\n", 1))
 v("benign-edge-attr-idiom", B, (KFD, "        for u, v, data in self.G.edges(data=True):\n            if (u, v) in self.edges_to_ignore:\n                continue\n            # float(): the solver's `==` accepts Python numbers only, not numpy integer or float32 scalars\n            f_u_v = float(data[self.flow_attr])\n\n            self.solver.add_constraint(\n                self.solver.quicksum(self.solution_weights_superset[i]",
                                   "        for u, v in self.G.edges():\n            if (u, v) in self.edges_to_ignore:\n                continue\n            f_u_v = float(self.G[u][v][self.flow_attr])\n\n            self.solver.add_constraint(\n                self.solver.quicksum(self.solution_weights_superset[i]", 1))
 # --- reader / translators / flow-safety threshold (round-2 seeds generalised)
@@ -224,7 +224,7 @@ v("benign-flow-safety-threshold-strict-under-record-guard", B, ("flowpaths/utils
 v("c06-flow-safety-threshold-strict", {"C06", "C05"}, ("flowpaths/utils/safetyflowdecomp.py", "if inexact_excess + rightdiff <= excess_tolerance:", "if inexact_excess + rightdiff < 0:", 1),
   ("flowpaths/utils/safetyflowdecomp.py", "if path_not_suffix_of_previous and inexact_excess > excess_tolerance:", "if path_not_suffix_of_previous and inexact_excess >= 0:", 1))
 v("c06-flow-safety-absolute-tolerance-again", {"C06", "C05"}, ("flowpaths/utils/safetyflowdecomp.py", "if path_not_suffix_of_previous and inexact_excess > excess_tolerance:", "if path_not_suffix_of_previous and inexact_excess > 1e-9:", 1))
-v("c06-flow-safety-assert-exact-floats", {"C06", "C05"}, ("flowpaths/utils/safetyflowdecomp.py", "        return value if isinstance(value, int) else Fraction(value)", "        return value", 2),
+v("c06-flow-safety-assert-exact-floats", {"C06", "C05"}, ("flowpaths/utils/safetyflowdecomp.py", "        return value if isinstance(value, int) else Fraction(*value.as_integer_ratio()) if hasattr(value, \"as_integer_ratio\") else Fraction(value)", "        return value", 2),
   ("flowpaths/utils/safetyflowdecomp.py", "                assert abs(inexact_excess) <= excess_tolerance\n", "                assert inexact_excess == 0\n", 1))
 v("benign-flow-safety-threshold-restyled", B, ("flowpaths/utils/safetyflowdecomp.py", "if inexact_excess + rightdiff <= excess_tolerance:", "if excess_tolerance >= rightdiff + inexact_excess:", 1))
 # --- C17.R4 reachability DP direction
@@ -294,3 +294,17 @@ v("benign-conservation-int-branch-restyled", B, (GU, "            out_flow += in
 v("c19-conservation-raw-sum", {"C19"}, (GU, "            out_flow += int(data[flow_attr]) if isinstance(data[flow_attr], numbers.Integral) else data[flow_attr]", "            out_flow += data[flow_attr]", 1))
 v("benign-antichain-fraction-import-style", B, ("flowpaths/stdag.py", "                    edge_demand = Fraction(float(edge_demand))", "                    edge_demand = Fraction(edge_demand)", 1))
 v("c17-antichain-demand-rounded", {"C17"}, ("flowpaths/stdag.py", "                    edge_demand = Fraction(float(edge_demand))", "                    edge_demand = int(edge_demand)", 1))
+# --- round 5 (hunt 5) rules
+MFD = "flowpaths/minflowdecomp.py"
+v("c15-source-flow-raw-sum", {"C15"}, (MFD, "                            self._source_flow += data[self.flow_attr].item() if hasattr(data[self.flow_attr], \"item\") else data[self.flow_attr]", "                            self._source_flow += data[self.flow_attr]", 1))
+v("benign-source-flow-local", B, (MFD, "                            self._source_flow += data[self.flow_attr].item() if hasattr(data[self.flow_attr], \"item\") else data[self.flow_attr]", "                            flow_value = data[self.flow_attr]\n                            self._source_flow += flow_value.item() if hasattr(flow_value, \"item\") else flow_value", 1))
+v("c19-tolerance-nan-passes", {"C19"}, ("flowpaths/utils/solverwrapper.py", "        if not (self.tolerance >= 1e-9):", "        if self.tolerance < 1e-9:", 1))
+v("benign-tolerance-check-restyled", B, ("flowpaths/utils/solverwrapper.py", "        if not (self.tolerance >= 1e-9):", "        if not (1e-9 <= self.tolerance):", 1))
+v("c19-mfd-mingenset-guard-nan-blind", {"C19"}, (MFD, "        if any(not (self.G.edges[e][self.flow_attr] >= 0) for e in self.G.edges):", "        if any(self.G.edges[e][self.flow_attr] < 0 for e in self.G.edges):", 1))
+v("c19-mfd-window-filter-unguarded", {"C19"}, (MFD, "                if isinstance(c, list) and all(isinstance(e, tuple) and len(e) == 2 and e in subgraph.edges for e in c)", "                if all(e in subgraph.edges for e in c)", 1))
+v("c11-subgraph-attrs-unpacked", {"C11"}, (GU, "            subgraph.add_edge(u, v)\n            subgraph[u][v].update(graph[u][v])", "            subgraph.add_edge(u, v, **graph[u][v])", 1))
+v("c07-constraint-length-raw-sum", {"C07"}, ("flowpaths/abstractpathmodeldag.py", "                        constraint_length = sum(float(self.G[u][v].get(self.length_attr, 1)) for (u,v) in self.subpath_constraints[j])", "                        constraint_length = sum(self.G[u][v].get(self.length_attr, 1) for (u,v) in self.subpath_constraints[j])", 1))
+v("c07-given-weights-threshold-too-small", {"C07"}, ("flowpaths/kleastabserrors.py", "[weight if weight > 1e-9 else 0 for weight in self.solution_weights_superset]", "[weight if weight > 1e-12 else 0 for weight in self.solution_weights_superset]", 1))
+v("benign-given-weights-threshold-restyled", B, ("flowpaths/kleastabserrors.py", "[weight if weight > 1e-9 else 0 for weight in self.solution_weights_superset]", "[0 if w <= 1e-9 else w for w in self.solution_weights_superset]", 1))
+v("c15-mfdc-multiplicity-guard-dropped", {"C15"}, ("flowpaths/minflowdecompcycles.py", "        if self.w_max < 1:\n            return None\n", "", 1))
+v("c02-readers-fraction-of-longdouble", {"C02"}, ("flowpaths/utils/safetyflowdecomp.py", "Fraction(*value.as_integer_ratio()) if hasattr(value, \"as_integer_ratio\") else Fraction(value)", "Fraction(value)", 2))
